@@ -226,12 +226,16 @@ func runC17(c *Ctx) {
 			key := "C17-R3|autoWire|SubPipeline arg"
 			derives := Contains(MethodNamed("Name"))(e)
 			if !derives {
-				// built by a helper: one of the values feeding it is an h.Name() result
+				// built by a helper: one of the values feeding THIS argument is an h.Name() result
+				saved := feeds
+				feeds = map[ssa.Value]bool{}
+				addFeeds(e, 0)
 				for v := range feeds {
 					if cl, ok := v.(*ssa.Call); ok && MethodNamed("Name")(Desc(cl)) {
 						derives = true
 					}
 				}
+				feeds = saved
 			}
 			if derives {
 				c.ok("C17-R3", key, instrPos(in), "SubPipeline receives the ClientOnly skip list")
